@@ -136,6 +136,65 @@ def run_unit(unit, repo='/repo', mode='partial', use_cache=True, outdir=None, ex
     return res
 
 
+def shadow_run(unit, repo='/repo', mode='partial'):
+    """Vacuity guard (DESIGN §11b): copy of the unit where every contracted function additionally ensures
+    `r is Ok ==> false` (Result-returning) or `false`; every one of them must FAIL. A function for which the shadow
+    clause verifies has a contradictory precondition / assumed contract, or no reachable Ok path."""
+    import re as _re
+    meta = asm.assemble(unit, repo, mode)
+    lines = open(meta['file']).read().split('\n')
+    targets = {}
+    for f in meta['functions']:
+        a, b = f['out_start'] - 1, f['out_end']
+        sig_end = None
+        is_result = False
+        for i in range(a, min(b, a + 40)):
+            if 'Result<' in lines[i] or 'StdResult' in lines[i]:
+                is_result = True
+            st_ = lines[i].strip()
+            if st_ == 'ensures' or st_.startswith('ensures '):
+                sig_end = i
+                break
+            if st_ == '{' or st_.endswith('{'):
+                break
+        if sig_end is None:
+            continue
+        idx = len(targets) + 1
+        clause = ('(r is Ok ==> !shadow_flag(%d))' % idx) if is_result else ('!shadow_flag(%d)' % idx)
+        if lines[sig_end].strip() == 'ensures':
+            lines[sig_end] = lines[sig_end] + ' ' + clause + ', /*SHADOW*/'
+        else:
+            lines[sig_end] = lines[sig_end].replace('ensures ', 'ensures ' + clause + ', /*SHADOW*/ ', 1)
+        targets[f['name']] = sig_end + 1
+    spath = meta['file'].replace('.rs', '_shadow.rs')
+    text = '\n'.join(lines).replace('pub mod unit {', 'pub mod unit {\npub uninterp spec fn shadow_flag(i: int) -> bool;', 1)
+    off = 1
+    targets = {k: v + off for k, v in targets.items()}
+    open(spath, 'w').write(text)
+    p = subprocess.run(['verus', spath] + VERUS_ARGS, capture_output=True, text=True, cwd=VERIF)
+    try:
+        out = json.loads(p.stdout)
+        vr = out['verification-results']
+        if vr.get('encountered-vir-error') or vr.get('verified', 0) + vr.get('errors', 0) == 0:
+            raise ValueError('no verification happened')
+    except Exception:
+        return {'status': 'undecided', 'reason': 'shadow unit did not compile', 'stderr': p.stderr[-2000:]}
+    failed_lines = set()
+    for ln in p.stderr.split('\n'):
+        if ln.startswith('{'):
+            try:
+                d = json.loads(ln)
+            except Exception:
+                continue
+            if d.get('level') == 'error':
+                for sp in d.get('spans', []):
+                    if os.path.basename(sp.get('file_name', '')) == os.path.basename(spath):
+                        for l in range(sp['line_start'], sp['line_end'] + 1):
+                            failed_lines.add(l)
+    vacuous = [n for n, l in targets.items() if l not in failed_lines]
+    return {'status': 'ok', 'checked': len(targets), 'vacuous': vacuous}
+
+
 if __name__ == '__main__':
     import argparse
     ap = argparse.ArgumentParser()
@@ -143,7 +202,11 @@ if __name__ == '__main__':
     ap.add_argument('--repo', default='/repo')
     ap.add_argument('--mode', default='partial')
     ap.add_argument('--no-cache', action='store_true')
+    ap.add_argument('--shadow', action='store_true')
     a = ap.parse_args()
+    if a.shadow:
+        print(shadow_run(a.unit, a.repo, a.mode))
+        sys.exit(0)
     r = run_unit(a.unit, a.repo, a.mode, use_cache=not a.no_cache)
     r.pop('meta', None)
     if r['status'] != 'ok':
